@@ -92,6 +92,12 @@ pub fn build<C: BlsSignatureImpl + Clone>(lib: &Lib, c: &Value, rng: &mut ChaCha
     // the recipient uses the genuine ciphertext first (same thread): whatever the library remembers between
     // calls is warm when the altered ciphertext arrives
     let _ = (ct.is_valid(), ct.decrypt(&lib.sk::<C>(k)).is_some());
+    // ... and has just refused an altered, longer one
+    {
+        let mut bad = pk.sign_crypt(scheme_of(scheme0), msg_of_len(lib.conc, "Mw", n + 40));
+        bad.w = -bad.w;
+        let _ = (bad.is_valid(), bad.decrypt(&lib.sk::<C>(k)).is_some());
+    }
     let other_n = if n == 5 { 33 } else { 5 };
     let other = pk.sign_crypt(scheme_of(scheme0), msg_of_len(lib.conc, "M2", other_n));
     let ops = geta(c, "ops");
